@@ -210,7 +210,8 @@ def gen(rng, shape=None, allow_tiny=True):
             t = [c[0] + r * math.cos(a1), c[1] + r * math.sin(a1), s[2]]
         hasz = shape == "arc" and rng.random() < 0.4
         if hasz:
-            t[2] = s[2] + rng.uniform(-10, 10)
+            # a target height of exactly 0 now and then (added after seed C11f: "no Z given" tested by truthiness)
+            t[2] = 0.0 if (s[2] != 0.0 and rng.random() < 0.3) else s[2] + rng.uniform(-10, 10)
         req.update(target=t, center=c, centers=[c], r=r, hasz=hasz, far=True, len=math.hypot(r * sweep, t[2] - s[2]))
     elif shape == "arc_radius":
         r = rng.uniform(4 * res, 45)
@@ -236,7 +237,7 @@ def gen(rng, shape=None, allow_tiny=True):
         c = [s[0] - r0 * math.cos(a0), s[1] - r0 * math.sin(a0), s[2]]
         base = rng.uniform(0.2, 2 * math.pi - 0.2)
         a1 = a0 + sgn * base
-        t = [c[0] + r1 * math.cos(a1), c[1] + r1 * math.sin(a1), s[2] + rng.uniform(-8, 8)]
+        t = [c[0] + r1 * math.cos(a1), c[1] + r1 * math.sin(a1), 0.0 if (s[2] != 0.0 and rng.random() < 0.25) else s[2] + rng.uniform(-8, 8)]
         turns = rng.choice([1, 1, 2, 3, 4])
         # a constant-radius helix is a constant-speed shape (C12): its length is known in closed form
         total = base + 2 * math.pi * (turns - 1)
@@ -282,9 +283,14 @@ def gen(rng, shape=None, allow_tiny=True):
         # waypoints with structure (added after seed C11b: a polyline through the origin): the origin itself, points on
         # an axis or a coordinate plane, and the start of the path again -- values a test on the converted vertex mistakes
         special = rng.random() < 0.5
+        steep = rng.random() < 0.25      # mostly vertical zig-zag (added after seed C10f: curve length measured in XY only)
         for _ in range(n):
             while True:
                 p = [round(prev[0] + rng.uniform(-25, 25), 2), round(prev[1] + rng.uniform(-25, 25), 2), round(prev[2] + rng.uniform(-4, 4), 2)]
+                if steep:
+                    p = [round(prev[0] + rng.uniform(-1.5, 1.5), 2), round(prev[1] + rng.uniform(-1.5, 1.5), 2),
+                         round(prev[2] + rng.choice([-1, 1]) * rng.uniform(8, 20), 2)]
+                    break
                 if special:
                     k = rng.randrange(6)
                     p = [[0.0, 0.0, 0.0], [p[0], 0.0, 0.0], [0.0, p[1], 0.0], [0.0, 0.0, p[2]], list(s), [p[0], p[1], 0.0]][k]
